@@ -185,6 +185,7 @@ func runProgram[T Num](c *core.Ctx, b *Backend[T], p *AProg, sides []*realSide[T
 			metas = append(metas, m)
 		}
 		c.Count("ops/"+op.K, 1)
+		argsAfterOnReference := ""
 		for si, side := range sides {
 			v := side.views[op.V]
 			if v == nil {
@@ -205,12 +206,15 @@ func runProgram[T Num](c *core.Ctx, b *Backend[T], p *AProg, sides []*realSide[T
 					}
 				}
 			}
+			// the index / extent / step slices handed to the library are the caller's: a call must leave them as they were
+			// (a caller walking an array re-uses one index slice from call to call)
+			aLoc, aDims, aStep := cpInts(op.Loc), cpInts(op.Dims), cpInts(op.Step)
 			ok := c.Guard(o.prop+"panic", model, func() {
 				switch op.K {
 				case "slice":
-					side.views = append(side.views, v.Slice(cpInts(op.Loc), cpInts(op.Dims), cpInts(op.Step)))
+					side.views = append(side.views, v.Slice(aLoc, aDims, aStep))
 				case "set":
-					v.Set(cpInts(op.Loc), T(op.Vals[0])+base)
+					v.Set(aLoc, T(op.Vals[0])+base)
 				case "set1":
 					v.Set1(op.Loc[0], T(op.Vals[0])+base)
 				case "set2":
@@ -218,11 +222,11 @@ func runProgram[T Num](c *core.Ctx, b *Backend[T], p *AProg, sides []*realSide[T
 				case "set3":
 					v.Set3(op.Loc[0], op.Loc[1], op.Loc[2], T(op.Vals[0])+base)
 				case "apply":
-					v.Apply(cpInts(op.Loc), op.Dim, op.St, conv[T](op.Vals, base))
+					v.Apply(aLoc, op.Dim, op.St, conv[T](op.Vals, base))
 				case "apply1":
 					v.Apply1(op.Loc[0], op.St, conv[T](op.Vals, base))
 				case "applyslice":
-					v.ApplySlice(cpInts(op.Loc), cpInts(op.Step), src)
+					v.ApplySlice(aLoc, aStep, src)
 				case "copyfrom":
 					v.CopyFrom(src)
 				case "reshape", "reshapefast":
@@ -327,6 +331,18 @@ func runProgram[T Num](c *core.Ctx, b *Backend[T], p *AProg, sides []*realSide[T
 				return
 			}
 			_ = si
+			// lock-step: what a call does to the caller's index arguments is observable, so it must be the same on both
+			// back-ends (no property says a call may not touch them at all, so a single back-end is not judged on it)
+			if o.lockstep {
+				args := fmt.Sprint(aLoc, aDims, aStep)
+				if si == 0 {
+					argsAfterOnReference = args
+				} else if args != argsAfterOnReference {
+					viol(o.prop+"argument-handling-differs", "%s leaves the caller's index arguments (loc dims step) as %s on %s but as %s on %s (passed in: %v %v %v)", op.K, args, side.name, argsAfterOnReference, sides[0].name, op.Loc, op.Dims, op.Step)
+					return
+				}
+				c.Count("argument_slices_compared_between_backends", 1)
+			}
 		}
 		if op.K == "bulk" && b.Scale == nil {
 			// int / uint have no bulk helpers: undo the shadow effect by re-deriving from a real side
